@@ -4,6 +4,7 @@ SV8 (mutagen/musepack.py `MusepackInfo`).  Property theorems only; layouts: Spec
 parser: Model/Info/Musepack.lean, rate table: Generated/Tables.lean.
 -/
 import MutagenModel.Proofs.Info.Musepack
+import MutagenModel.Proofs.Info.Reports
 set_option linter.unusedVariables false
 namespace Mutagen.C05
 open Mutagen Mutagen.Info Mutagen.Info.Musepack Mutagen.Spec.Musepack
@@ -26,6 +27,23 @@ theorem mpc_sv7_info_decodes_partial (h : Sv7) (ok : h.OK) (hg : h.trueGapless =
     (hlen : 4 ≤ rest.length) :
     parse (h.build ++ rest) = .ok (h.expected (h.build ++ rest).length) :=
   parse_sv7 h ok hg rest hlen
+
+/-- what `MusepackInfo` DOES report for an SV7 header, for ALL values including the true-gapless flag: everything as in
+`mpc_sv7_info_decodes_partial`, and the duration always `(frames·1152 - 576) / rate` — with the flag set the header
+encodes `(frames-1)·1152 + last-frame-samples` samples, so the report is off by `1152 - 576 - last-frame-samples`
+samples, between -576 and +575. -/
+theorem mpc_sv7_info_reports (h : Sv7) (ok : h.OK) (rest : Bytes) (hlen : 4 ≤ rest.length) :
+    parse (h.build ++ rest) =
+      .ok { h.expected (h.build ++ rest).length with length := ⟨(h.frames : Int) * 1152 - 576, rate h.rateIndex⟩ } :=
+  parse_sv7_reports h ok rest hlen
+
+/-- the size of the deviation: reported minus encoded samples, for the true-gapless headers -/
+theorem mpc_sv7_gapless_deviation (h : Sv7) (ok : h.OK) (hg : h.trueGapless = 1) :
+    ((h.frames : Int) * 1152 - 576) - h.samples = 576 - (h.lastFrameSamples : Int) ∧
+    -576 ≤ 576 - (h.lastFrameSamples : Int) ∧ 576 - (h.lastFrameSamples : Int) ≤ 575 := by
+  have hl := ok.2.2.2.2.2.2.2.2.2.2.2.2.2.2.2.2.2.2.2.2.2.2 hg
+  simp only [Sv7.samples, hg, if_true]
+  omega
 
 /-- C05 for Musepack SV8: for EVERY stream header (any CRC and version byte, 63-bit sample count and beginning
 silence, the four rates, 1..32 bands, 1..16 channels, mid/side, block power, any padding) followed by any
